@@ -299,6 +299,12 @@ theorem SubImage_new_src_eq_model (t : ImageDrawableT) (area : Rect) (hu : IsU32
 theorem Image_new_src_eq_model (t : ImageDrawableT) (o : Pt) : ImgSrc.Image_new t o = ⟨t, o⟩ := rfl
 theorem Image_translate_src_eq_model (i : ImgSrc.Image) (by_ : Pt) :
     ImgSrc.Image_Transform_translate i by_ = ⟨i.image_drawable, i.offset + by_⟩ := rfl
+/-- `Transform::translate_mut` (`self.offset += by; self`): the returned reference and `*self` afterwards are the hand
+model's `translateMut` -/
+theorem Image_translate_mut_src_eq_model (fuel : Nat) (d : SrcDrawable) (o by_ : Pt) :
+    ImgSrc.Image_Transform_translate_mut ⟨d.dict fuel, o⟩ by_ =
+      (⟨d.dict fuel, ((Img.Image.new d.model o).translateMut by_).offset⟩,
+       ⟨d.dict fuel, ((Img.Image.new d.model o).translateMut by_).offset⟩) := rfl
 theorem Image_bounding_box_src_eq_model (fuel : Nat) (d : SrcDrawable) (o : Pt) :
     ImgSrc.Image_Dimensions_bounding_box ⟨d.dict fuel, o⟩ = (Img.Image.new d.model o).boundingBox := by
   unfold ImgSrc.Image_Dimensions_bounding_box
